@@ -123,8 +123,8 @@ META2 = {
         explanation="s_step.c obligations from any RI state: never both machines in FLUSH_IO_WRITE (part of RI); at most one io->write attempt per call, only by a machine that is flushing, offering the byte "
                     "under its own cursor; cursor advances by one iff accepted; a flush is entered only from its wait state with the cursor on the first byte of a unit and left only at the NUL of the "
                     "trailing newline; the other machine's buffer is not written meanwhile (C03 frames). Together these imply whole, non-interleaved units for every schedule and history.",
-        bounds={"quick": "102 step jobs", "thorough": "1516 step jobs"},
-        outside="a black-box line-level monitor with events is not built (the argument from the lemmas to the stream property is on paper, DESIGN.md C11)",
+        bounds={"quick": "109 step jobs", "thorough": "1516 step jobs"},
+        outside="no line-level run with events in flight (r_events.c exists but exhausts memory under CBMC, DESIGN.md 9.6); the argument from the lemmas to the stream property is on paper (DESIGN.md C11)",
         assumptions=[RI_NOTE, FAMILY],
         level_text="inductive step lemmas decided by the solver; the composition argument is manual"),
     "C12": dict(
@@ -132,8 +132,8 @@ META2 = {
         explanation="s_step.c: a call in which the read is refused leaves the command FSM, its buffer and the variables unchanged and makes no callback; a refused write leaves the flushing machine unchanged; "
                     "reading states attempt exactly one read, other states none. r_twin.c MODE 1: the same line run eagerly and under a symbolic schedule with up to 2 read and 2 write refusals gives the "
                     "same output bytes, handler log, write-handler arguments and variable values.",
-        bounds={"quick": "102 step jobs + 4 twin shapes with <= 2 refusals of each kind at arbitrary steps", "thorough": "1516 step jobs + same twin shapes"},
-        outside="more than 2 refusals in one line at line level (the step lemma covers any number)",
+        bounds={"quick": "109 step jobs + 2 twin shapes (ATnL, ATn?L) with <= 1 read and <= 1 write refusal at arbitrary steps", "thorough": "1516 step jobs + 4 twin shapes with <= 2 refusals of each kind"},
+        outside="more refusals in one line at line level (the step lemma covers any number)",
         assumptions=[RI_NOTE, FAMILY, "io->read returns 0 or 1 and leaves *ch alone when it returns 0"],
         level_text="inductive stutter lemma plus bounded self-composition"),
     "C13": dict(
@@ -200,9 +200,11 @@ META2 = {
     "C20": dict(
         engine=E3,
         explanation="r_twin.c MODE 0: the same symbolic line is answered by a parser fresh from cat_init and by one at IDLE with every scratch field and the whole working buffer havocked (what any earlier line can "
-                    "leave behind by RI's IDLE clause): identical output bytes, handler log, write-handler arguments, variable values. r_line.c: every newline of a response is CRLF iff a CR followed the line's "
-                    "first non-blank byte.",
-        bounds={"quick": "8 twin shapes + 6 CR-placement shapes", "thorough": "same + the C01 thorough shapes carry the ending monitor"},
+                    "leave behind by RI's IDLE clause): identical output bytes, handler log, write-handler arguments, variable values. r_twin.c MODE 3 (concatenation, the property's own wording): two lines "
+                    "on one parser vs the second line alone on a fresh parser with the variable values line 1 left - everything emitted after line 1's answer, the handler invocations and the variable "
+                    "effects must be equal; first lines are chosen to leave the parser through its different exits (over-long implicit write, garbage, write). r_line.c: every newline of a response is "
+                    "CRLF iff a CR followed the line's first non-blank byte.",
+        bounds={"quick": "8 fresh-vs-junk shapes + 2 concatenation shapes + 6 CR-placement shapes", "thorough": "7 concatenation shapes"},
         outside="lines longer than the shapes; that IDLE's defined fields are exactly {state, cr_flag, hold flag, cmd, cmd_type} is RI's IDLE clause (C03 jobs)",
         assumptions=["handlers return terminal codes", RI_NOTE],
         level_text="bounded self-composition through the public API; 'after any history' rests on the inductive IDLE clause of RI"),
